@@ -205,3 +205,44 @@ Proof.
   unfold run_dec, run, ast_of.
   rewrite (tokens_digit_run lt_decimal (conv_dec D) ip _ eq_refl Hne Hi Hv). reflexivity.
 Qed.
+
+(** ** the printed form of negative doubles: a prefix minus on either shape negates the value (sign flip, exact) *)
+Lemma tokens_minus_digit_run {V} (T : lextab) (conv : lit -> option V) ds v :
+  lt_imag_suffix T = false -> (forall rest, lex_step T conv (45 :: rest) = Some (TK KSubtract, rest)) ->
+  ds <> [] -> forallb is_digit ds = true -> conv (LNum ds false) = Some v ->
+  tokens_of T conv (45 :: ds) = Some [TK KSubtract; TNum v].
+Proof.
+  intros Hs Hm Hne Hd Hv. unfold tokens_of, tokenize_all.
+  change (strip (45 :: ds)) with (45 :: strip ds). rewrite (strip_digits ds Hd).
+  destruct ds as [|c cs]; [congruence|].
+  change (length (45 :: c :: cs)) with (S (S (length cs))).
+  remember (S (length cs)) as f eqn:Ef. cbn [tokenize]. rewrite Hm. subst f.
+  rewrite (tokenize_digit_run T conv Hs (length cs) c cs v Hd Hv). reflexivity.
+Qed.
+
+Lemma minus_f64 rest : lex_step lt_f64 conv_f64 (45 :: rest) = Some (TK KSubtract, rest).
+Proof. reflexivity. Qed.
+Lemma minus_number rest : lex_step lt_number conv_num (45 :: rest) = Some (TK KSubtract, rest).
+Proof. reflexivity. Qed.
+
+Theorem f64_signed_literal_run (L : libm) (p : f64) ip fp :
+  ip <> [] -> forallb is_digit ip = true -> forallb is_digit fp = true ->
+  run_f64 L (45 :: ip) p = Ok (fneg (f64_of_decimal (digits_val 0 ip) 0)) /\
+  run_f64 L (45 :: ip ++ ch_dot :: fp) p = Ok (fneg (f64_of_decimal (digits_val 0 (ip ++ fp)) (N.of_nat (length fp)))).
+Proof.
+  intros Hne Hi Hf. split; unfold run_f64, run, ast_of.
+  - rewrite (tokens_minus_digit_run lt_f64 conv_f64 ip _ eq_refl minus_f64 Hne Hi (parse_f64_integer ip Hne Hi)). reflexivity.
+  - rewrite (tokens_minus_point_literal lt_f64 conv_f64 mode_f64 minus_f64 ip fp _ Hne Hi Hf (parse_f64_point ip fp Hne Hi Hf)).
+    reflexivity.
+Qed.
+
+Theorem number_signed_point_literal_run (L : libm) (p : number) ip fp :
+  ip <> [] -> forallb is_digit ip = true -> forallb is_digit fp = true ->
+  run_num L (45 :: ip ++ ch_dot :: fp) p = Ok (Flt (fneg (f64_of_decimal (digits_val 0 (ip ++ fp)) (N.of_nat (length fp))))).
+Proof.
+  intros Hne Hi Hf. unfold run_num, run, ast_of.
+  assert (Hv : conv_num (LNum (ip ++ ch_dot :: fp) false)
+               = Some (Flt (f64_of_decimal (digits_val 0 (ip ++ fp)) (N.of_nat (length fp))))).
+  { unfold conv_num. rewrite has_point_point, (parse_f64_point ip fp Hne Hi Hf). reflexivity. }
+  rewrite (tokens_minus_point_literal lt_number conv_num mode_number minus_number ip fp _ Hne Hi Hf Hv). reflexivity.
+Qed.
